@@ -65,11 +65,47 @@ def passing_tests(tree: str, files: list[str]) -> set[str]:
     return {l.split(" ", 1)[1].split(" - ")[0] for l in out.splitlines() if l.startswith("PASSED ")}
 
 
+def cross_check(src: Path, name: str, prop: str) -> int:
+    patch = src / "patch.diff"
+    rc, out = sh(["git", "-C", REPO, "apply", "--check", str(patch)])
+    if rc != 0:
+        print(f"{name} x {prop}: patch does not apply"); return 1
+    try:
+        sh(["git", "-C", REPO, "apply", str(patch)])
+        env = dict(os.environ, VERIF_SEED=os.environ.get("VERIF_SEED", "0"), VERIF_REPO=REPO)
+        rcc, outc = sh(["./check", prop, "--tier", "quick"], cwd=str(VERIF), timeout=5400, env=env)
+        keys = []
+        for l in outc.splitlines():
+            if l.startswith("VIOLATION") and "replay=" in l:
+                try:
+                    d = json.loads(Path(l.split("replay=")[1].split()[0]).read_text())
+                    keys.append(d.get("key") or d.get("kind"))
+                except Exception:
+                    pass
+    finally:
+        sh(["git", "-C", REPO, "checkout", "--", "."])
+        sh(["git", "-C", str(VERIF), "checkout", "--", "evidence", "lean/VgiVerif/Gen", "lean/GenBaseline"])
+        if WS:
+            sh(["rm", "-rf", str(VERIF / "replays")])
+    rec = {"property": prop, "check_rc": rcc, "replay_keys": keys,
+           "detected_with_failing_input": any(k and k != "no-longer-checks" for k in keys)}
+    mp = MAIN_VERIF / "seeded" / name / "meta.json"
+    if mp.exists():
+        meta = json.loads(mp.read_text())
+        meta["cross_checks"] = [c for c in meta.get("cross_checks", []) if c.get("property") != prop] + [rec]
+        mp.write_text(json.dumps(meta, indent=1))
+    print(f"{name} x {prop}: check_rc={rcc} keys={keys}")
+    return 0
+
+
 def main() -> int:
     src = Path(sys.argv[1])
     with_tests = "--tests" in sys.argv
     name = src.name  # Cxx-k
     prop = name.split("-")[0]
+    cross = os.environ.get("SEED_PROP")  # run ANOTHER property's check against this change (result appended to meta.cross_checks)
+    if cross:
+        return cross_check(src, name, cross)
     patch = src / "patch.diff"
     demo = src / "demo.py"
     meta: dict = {"id": name, "property": prop, "source": "independent sub-agent given only the property text and a scratch worktree",
